@@ -6,7 +6,10 @@ ids=[c['property_id'] for c in m['checks']]
 for f in sorted(glob.glob('/verif/evidence/*.json')):
     e=json.load(open(f))
     try:
-        jsonschema.validate(e,es); print(f,"ok",e['tier'],e['coverage'].get('evaluations'),e['coverage'].get('distinct_nontrivial'),round(e['wall_s']))
+        jsonschema.validate(e,es)
+        assert len(e['coverage'].get('samples',[]))>=1, "no samples"
+        assert e['coverage'].get('evaluations',0)>=1 and e['coverage'].get('distinct_nontrivial',0)>=2, "counts too low"
+        print(f,"ok",e['tier'],e['coverage'].get('evaluations'),e['coverage'].get('distinct_nontrivial'),round(e['wall_s']))
     except Exception as ex: print(f,"INVALID",str(ex)[:300])
 props=[json.loads(l)['id'] for l in open('/verif/properties.jsonl')]
 na=[x['property_id'] for x in m.get('not_applicable',[])]
